@@ -34,7 +34,6 @@ func (cr *compRun) runSketch() {
 	}
 }
 
-
 // runSketch (C18): one task. Task 0 holds the recording program:
 //
 //	cap n   - ensureCapacity(n)
